@@ -433,8 +433,15 @@ class RetryExecutor(CanCustomizeBind, Executor):
         assert found_job, "BUG: no job associated with delegate %s" % delegate_future
 
         if delegate_future.cancelled():
-            # nothing to do, retrying on cancel is not allowed
+            # retrying on cancel is not allowed
             self._log.debug("Delegate was cancelled: %s", delegate_future)
+            future = found_job.future
+            future._me_delegate_cancelled()
+            if future.done():
+                # Cancelled by someone other than future.cancel():
+                # nobody else is going to clean up.
+                future._clear_delegate()
+                self._pop_job(found_job)
             return
 
         (should_retry, sleep_time) = eval_policy(found_job, self._log)
